@@ -30,6 +30,9 @@ def main():
     # --recheck: the change is already filed under seeded/<name>/ (claims verified then); only run the
     # checks again in their present state and update "checks"/"caught_by" in its meta.json
     recheck = "--recheck" in sys.argv
+    # --claims: the change is filed; run only its demonstration again (with the change: must fail; without:
+    # must pass) and record the two results under "verified"; no check is run
+    claims_only = "--claims" in sys.argv
     tier = sys.argv[sys.argv.index("--tier") + 1] if "--tier" in sys.argv else "quick"
     out = os.path.join(wt, "out")
     dest = os.path.join("/verif", "seeded", name)  # results always land in the live /verif, also when run from a vp snapshot
@@ -41,7 +44,7 @@ def main():
         except Exception as e:
             meta = {"author_meta_unreadable": str(e)}
     res = {"property": prop, "author": meta, "verified": {}, "checks": {}}
-    if recheck:
+    if recheck or claims_only:
         out = dest
         res = json.load(open(os.path.join(dest, "meta.json")))
         # results of checks that are not re-run now are kept (they date from the last full run)
@@ -68,6 +71,20 @@ def main():
     if os.path.exists(demo):
         shutil.copy(demo, os.path.join(wt, "tests", "seeded_demo.rs"))
     # --- 1. claims
+    if claims_only:
+      dc = str((res.get("author") or {}).get("demo_cmd", "")).split("#")[0].split(";")[0]
+      flags = "".join(f for f in (" --no-default-features", " --release") if f.strip() in dc)
+      rc1, o1 = sh("cargo test --offline%s --test seeded_demo 2>&1 | tail -15" % flags, cwd=wt, env=env)
+      demo_fails = "test result: FAILED" in o1 or "error: test failed" in o1 or ("test result: ok" not in o1 and ("panicked" in o1 or "error" in o1))
+      sh("git apply -R --index %s" % patch, cwd=wt)
+      rc2, o2 = sh("cargo test --offline%s --test seeded_demo 2>&1 | tail -5" % flags, cwd=wt, env=env)
+      demo_passes = "test result: ok" in o2 and "FAILED" not in o2
+      res["verified"].update({"demo_flags": flags.strip(), "demo_fails_with_change": demo_fails, "demo_passes_without_change": demo_passes, "demo_output_with_change": o1[-800:], "claims_rechecked_as_of": time.strftime("%Y-%m-%d %H:%M UTC", time.gmtime())})
+      res["checks"] = old_checks
+      json.dump(res, open(os.path.join(dest, "meta.json"), "w"), indent=1)
+      print("[seedtest] %s: demo_fails=%s demo_passes_without=%s" % (name, demo_fails, demo_passes), flush=True)
+      sh("git -C /repo worktree remove --force %s" % wt)
+      return
     if not recheck:
       rc, o = sh("git diff --cached --stat -- src | tail -1", cwd=wt)
       res["verified"]["diffstat"] = o.strip()
@@ -75,11 +92,12 @@ def main():
       res["verified"]["suite_with_change"] = o.strip().splitlines()[-1] if o.strip() else ""
       suite_ok = "164 passed" in o and "failed" not in o.split("Summary")[-1]
       # build flavour the author names for the demonstration (round 14: some changes live in one flavour only)
-      dc = str((res.get("author") or {}).get("demo_cmd", ""))
+      dc = str((res.get("author") or {}).get("demo_cmd", "")).split("#")[0].split(";")[0]
       flags = "".join(f for f in (" --no-default-features", " --release") if f.strip() in dc)
       res["verified"]["demo_flags"] = flags.strip()
       rc1, o1 = sh("cargo test --offline%s --test seeded_demo 2>&1 | tail -15" % flags, cwd=wt, env=env)
-      demo_fails = rc1 != 0 or "FAILED" in o1 or "failed" in o1
+      # ("0 failed" is part of a passing summary line: look for the failing forms only)
+      demo_fails = "test result: FAILED" in o1 or "error: test failed" in o1 or ("test result: ok" not in o1 and ("panicked" in o1 or "error" in o1))
       sh("git apply -R --index %s" % patch, cwd=wt)
       try:
           rc2, o2 = sh("cargo test --offline%s --test seeded_demo 2>&1 | tail -5" % flags, cwd=wt, env=env)
